@@ -75,7 +75,11 @@ func (r *Reader) Header() *Header {
 func (r *Reader) Read() (*Record, error) {
 	b, err := r.r.ReadBytes('\n')
 	if err != nil {
-		return nil, err
+		// A final line without a newline is still a record.
+		if err != io.EOF || len(b) == 0 {
+			return nil, err
+		}
+		b = append(b, '\n')
 	}
 	b = b[:len(b)-1]
 	if b[len(b)-1] == '\r' {
